@@ -14,6 +14,7 @@ import (
 	"path/filepath"
 	"strings"
 
+	"github.com/awslabs/ar-go-tools/analysis/backtrace"
 	"github.com/awslabs/ar-go-tools/analysis/config"
 	df "github.com/awslabs/ar-go-tools/analysis/dataflow"
 	"github.com/awslabs/ar-go-tools/analysis/taint"
@@ -33,6 +34,7 @@ func main() {
 	dir := flag.String("dir", ".", "module directory")
 	patterns := flag.String("patterns", ".", "comma separated package patterns; each one is loaded on its own")
 	taintCfgs := flag.String("taint", "", "comma separated config files")
+	back := flag.Bool("backward", false, "record the backward traversal of backtrace.Analyze instead of taint.Analyze")
 	out := flag.String("out", "-", "ndjson output")
 	max := flag.Int("max", 60000, "stop recording after this many events (the analysis still runs to its end)")
 	flag.Parse()
@@ -69,7 +71,7 @@ func main() {
 			full := n >= *max
 			// a run is recorded completely or not at all: a truncated traversal cannot be validated
 			var buf []ev
-			taint.VerifOnVisit = func(event string, cur *df.VisitorNode, next *df.VisitorNode) {
+			hook := func(event string, cur *df.VisitorNode, next *df.VisitorNode) {
 				if full {
 					return
 				}
@@ -85,14 +87,22 @@ func main() {
 						buf = nil // a crashing run is C07's subject, not a trace
 					}
 				}()
-				_, _ = taint.Analyze(cfg, prog, pkgs)
+				if *back {
+					backtrace.VerifOnVisit = hook
+					_, _ = backtrace.Analyze(config.NewLogGroup(cfg), cfg, prog, pkgs)
+				} else {
+					taint.VerifOnVisit = hook
+					_, _ = taint.Analyze(cfg, prog, pkgs)
+				}
 			}()
-			taint.VerifOnVisit = nil
+			taint.VerifOnVisit, backtrace.VerifOnVisit = nil, nil
 			if !full && n+len(buf)+1 <= *max {
 				for _, e := range buf {
 					o.Put(e)
 				}
-				o.Put(ev{Op: "end", Prog: pat, Cfg: cname})
+				if !*back { // the backward visitor reports the end of every traversal itself
+					o.Put(ev{Op: "end", Prog: pat, Cfg: cname})
+				}
 				n += len(buf) + 1
 			}
 		}
